@@ -1,6 +1,6 @@
 (* Wire/PrimThms.v — the round-trip and sizing statements over all primitives and over scripts with frames. *)
 From Coq Require Import List ZArith Bool Lia.
-From SV Require Import Base.Corr Wire.Bytes Wire.BytesProofs Wire.Varint Wire.VarintProofs Wire.Crc Wire.Prim Wire.PushPop Wire.CorrPrim Wire.PrimProofs.
+From SV Require Import Base.Corr Wire.Bytes Wire.BytesProofs Wire.Varint Wire.VarintProofs Wire.Crc Wire.CrcProofs Wire.Prim Wire.PushPop Wire.CorrPrim Wire.PrimProofs.
 Import ListNotations.
 Open Scope Z_scope.
 
@@ -127,4 +127,318 @@ Proof.
       rewrite len_app, len_be, len_real_ints. unfold get_int64_array. change (get_int_array 8 i64 d) with (get_int_array (Z.of_nat 8) i64 d).
       rt_finish get_int_array_some; try lia; now apply forall_i64.
   - rt_finish get_empty_tagged_rt.
+Qed.
+
+(* ================================================================ sizing pass = writing pass, per primitive *)
+Lemma prep_strings_len l n : prep_strings l = inr n -> n = len (real_strings l).
+Proof.
+  revert n; induction l as [|s l IH]; intros n; cbn [prep_strings real_strings].
+  - intros H; apply inr_inj in H; now subst n.
+  - destruct (MAX_INT16 <? len s); [discriminate|]. destruct (prep_strings l) as [e|m]; [discriminate|].
+    intros H; apply inr_inj in H; subst n. rewrite !len_app, len_be, <- (IH m eq_refl). change (Z.of_nat 2) with 2. lia.
+Qed.
+
+Theorem prim_sizing p n : prep_prim p = inr n -> exists bs, real_prim p = inr bs /\ len bs = n.
+Proof.
+  unfold psize.
+  destruct p; cbn [prep_prim real_prim]; unfold prep_string; intros H;
+    repeat match goal with
+           | o : option _ |- _ => destruct o
+           | H : context [if ?c then _ else _] |- _ => destruct c
+           | H : context [match prep_strings ?l with _ => _ end] |- _ =>
+             let E := fresh "E" in destruct (prep_strings l) eqn:E; [discriminate | apply prep_strings_len in E]
+           end;
+    try discriminate; apply inr_inj in H; subst n; eexists; (split; [reflexivity|]);
+    cbn [olist] in *; subst; rewrite ?len_app, ?len_be, ?len_real_ints; try change (len (@nil Z)) with 0; try change (len (@nil (list Z))) with 0;
+    try reflexivity; try lia.
+Qed.
+
+(* ================================================================ scripts: two passes, frames *)
+Lemma len_zeros_reserve k : len (zeros (Z.to_nat (reserve k))) = reserve k.
+Proof.
+  rewrite len_zeros. assert (0 <= reserve k) by (destruct k; cbn [reserve]; try lia; apply len_nonneg). lia.
+Qed.
+
+Definition frame_field (k : pushkind) (body : list Z) : list Z :=
+  match k with
+  | KLen => be 4 (len body)
+  | KVarLen _ => put_varint (len body)
+  | KCrc p => be 4 (crc32 p body)
+  end.
+Lemma spec_bytes_frame k body rest :
+  spec_bytes (EFrame k body rest) =
+  match spec_bytes body, spec_bytes rest with
+  | inl e, _ => inl e
+  | _, inl e => inl e
+  | inr b, inr r => inr (frame_field k b ++ b ++ r)
+  end.
+Proof. cbn [spec_bytes]. destruct (spec_bytes body), (spec_bytes rest); try reflexivity. destruct k; reflexivity. Qed.
+
+(* the field value the real pass computes at pop depends only on the body bytes, and fills the reserved bytes *)
+Lemma len_frame_field k b : (match k with KVarLen l => l = len b | _ => True end) -> len (frame_field k b) = reserve k.
+Proof. destruct k as [|l|p]; cbn [frame_field reserve]; intros H; rewrite ?len_be; try reflexivity. now subst. Qed.
+
+Lemma real_frame k b buf : (match k with KVarLen l => l = len b | _ => True end) ->
+  field_bytes k (len buf) ((buf ++ zeros (Z.to_nat (reserve k))) ++ b) = Some (frame_field k b) /\
+  patch ((buf ++ zeros (Z.to_nat (reserve k))) ++ b) (len buf) (frame_field k b) = Some (buf ++ frame_field k b ++ b).
+Proof.
+  intros Hk. pose proof (len_frame_field k b Hk) as Hlen.
+  set (z := zeros (Z.to_nat (reserve k))) in *.
+  assert (Hz : len z = reserve k) by apply len_zeros_reserve.
+  split.
+  - destruct k as [|l|p]; cbn [field_bytes frame_field reserve] in *.
+    + f_equal. f_equal. rewrite !len_app, Hz. lia.
+    + now subst.
+    + replace (len buf + 4) with (len (buf ++ z)) by (rewrite len_app, Hz; reflexivity).
+      now rewrite slice_tail.
+  - rewrite <- app_assoc. apply patch_mid. lia.
+Qed.
+
+(* Main lemma: whatever the first pass computes, the second pass (on the tree as the first pass left it) appends
+   exactly the specified bytes to the buffer, and their number is what the first pass added to pe.length. *)
+Lemma prep_real ops : forall p n ops', run_prep ops p = inr (n, ops') ->
+  exists bs, spec_bytes ops = inr bs /\ n = p + len bs /\ (forall buf, run_real ops' buf = Some (inr (buf ++ bs))).
+Proof.
+  induction ops as [|pr rest IHr|k body IHb rest IHr]; intros p n ops' H; cbn [run_prep] in H.
+  - injection H as <- <-. exists []. cbn [spec_bytes run_real]. repeat split; [change (len (@nil Z)) with 0; lia|].
+    intros buf. now rewrite app_nil_r.
+  - destruct (prep_prim pr) as [e|m] eqn:Ep; [discriminate|].
+    destruct (run_prep rest (p + m)) as [e|[n' rest']] eqn:Er; [discriminate|]. injection H as <- <-.
+    destruct (prim_sizing pr m Ep) as (bp & Erp & Elp).
+    destruct (IHr _ _ _ Er) as (br & Esr & En & Hreal).
+    exists (bp ++ br). cbn [spec_bytes run_real]. rewrite Erp, Esr. repeat split; [rewrite len_app; lia|].
+    intros buf. rewrite Hreal, <- app_assoc. reflexivity.
+  - destruct (run_prep body (p + reserve k)) as [e|[cur body']] eqn:Eb; [discriminate|].
+    destruct (prep_pop k p cur) as [cur' k'] eqn:Epop.
+    destruct (run_prep rest cur') as [e|[n' rest']] eqn:Er; [discriminate|]. injection H as <- <-.
+    destruct (IHb _ _ _ Eb) as (bb & Esb & Ecur & Hrb).
+    destruct (IHr _ _ _ Er) as (br & Esr & En & Hrr).
+    assert (Hk : (match k' with KVarLen l => l = len bb | _ => True end) /\ cur' = p + reserve k' + len bb /\ frame_field k' bb = frame_field k bb).
+    { destruct k as [|l|pl]; cbn [prep_pop] in Epop; injection Epop as <- <-; cbn [reserve frame_field] in *.
+      - repeat split; lia.
+      - repeat split; lia.
+      - repeat split; lia. }
+    destruct Hk as (Hk & Hcur' & Hff).
+    exists (frame_field k bb ++ bb ++ br). rewrite spec_bytes_frame, Esb, Esr.
+    repeat split.
+    + rewrite !len_app, <- Hff, (len_frame_field k' bb Hk). lia.
+    + intros buf. cbn [run_real]. rewrite Hrb.
+      destruct (real_frame k' bb buf Hk) as (Hf & Hp). rewrite Hf, Hp, Hrr, Hff, <- !app_assoc. reflexivity.
+Qed.
+
+Theorem encode_spec ops n : prep_size ops = inr n -> 0 <= n <= MAX_REQUEST_SIZE ->
+  exists bs, encode ops = EncOk bs /\ spec_bytes ops = inr bs /\ len bs = n.
+Proof.
+  unfold prep_size, encode. destruct (run_prep ops 0) as [e|[m ops']] eqn:E; [discriminate|]. intros [= ->] Hn.
+  destruct (prep_real ops _ _ _ E) as (bs & Es & En & Hr). exists bs.
+  replace ((n <? 0) || (MAX_REQUEST_SIZE <? n)) with false
+    by (symmetry; apply orb_false_iff; split; apply Z.ltb_ge; lia).
+  rewrite (Hr []). cbn [app]. replace (n <? len bs) with false by (symmetry; apply Z.ltb_ge; lia).
+  replace (n - len bs) with 0 by lia. cbn [Z.to_nat zeros]. rewrite app_nil_r. repeat split; [assumption | lia].
+Qed.
+
+Theorem encode_ok_spec ops bs : encode ops = EncOk bs ->
+  spec_bytes ops = inr bs /\ prep_size ops = inr (len bs).
+Proof.
+  unfold encode, prep_size. destruct (run_prep ops 0) as [e|[n ops']] eqn:E; [discriminate|].
+  destruct ((n <? 0) || (MAX_REQUEST_SIZE <? n)); [discriminate|].
+  destruct (prep_real ops _ _ _ E) as (bs' & Es & En & Hr). rewrite (Hr []). cbn [app].
+  replace (n <? len bs') with false by (symmetry; apply Z.ltb_ge; lia).
+  replace (n - len bs') with 0 by lia. cbn [Z.to_nat zeros]. rewrite app_nil_r. intros [= <-].
+  split; [assumption | f_equal; lia].
+Qed.
+
+(* the encoding never panics and never leaves slack: the writing pass fills the buffer of the sizing pass exactly *)
+Theorem encode_no_panic ops : encode ops <> EncPanic.
+Proof.
+  unfold encode. destruct (run_prep ops 0) as [e|[n ops']] eqn:E; [discriminate|].
+  destruct ((n <? 0) || (MAX_REQUEST_SIZE <? n)); [discriminate|].
+  destruct (prep_real ops _ _ _ E) as (bs' & Es & En & Hr). rewrite (Hr []). cbn [app].
+  replace (n <? len bs') with false by (symmetry; apply Z.ltb_ge; lia). discriminate.
+Qed.
+
+(* length / CRC fields: a frame is its field followed by the body; the field is the body's byte count (int32 or
+   zig-zag varint, whatever stale value the varint field held before) resp. the CRC-32 / CRC-32C of exactly the body *)
+Theorem frame_spec k body rest bs : encode (EFrame k body rest) = EncOk bs ->
+  exists b r, spec_bytes body = inr b /\ spec_bytes rest = inr r /\ bs = frame_field k b ++ b ++ r.
+Proof.
+  intros H. apply encode_ok_spec in H as (H & _). rewrite spec_bytes_frame in H.
+  destruct (spec_bytes body) as [e|b]; [discriminate|]. destruct (spec_bytes rest) as [e|r]; [discriminate|].
+  exists b, r. repeat split. now injection H as <-.
+Qed.
+
+(* ================================================================ decoding a script's bytes with the mirror script *)
+Inductive runs : list dop -> dec -> list dval -> dec -> Prop :=
+| runs_nil d : runs [] d [] d
+| runs_cons o r d v d1 vs d2 : run_dop o d = Ok v d1 -> runs r d1 vs d2 -> runs (o :: r) d (v :: vs) d2.
+
+Lemma runs_app a b d va d1 vb d2 : runs a d va d1 -> runs b d1 vb d2 -> runs (a ++ b) d (va ++ vb) d2.
+Proof. induction 1; intros Hb; cbn [app]; [assumption | econstructor; eauto]. Qed.
+Lemma runs_run_dops ops d vs d' : runs ops d vs d' -> run_dops ops d = (vs, (0, off d')).
+Proof. induction 1; cbn [run_dops]; [reflexivity|]. now rewrite H, IHruns. Qed.
+
+Fixpoint expected_vals (ops : eops) : list dval :=
+  match ops with
+  | ENil => []
+  | ECons p r => expected p :: expected_vals r
+  | EFrame _ body r => VUnit :: expected_vals body ++ VUnit :: expected_vals r
+  end.
+Fixpoint cost_ops (ops : eops) : Z :=
+  match ops with
+  | ENil => 0
+  | ECons p r => cost p + cost_ops r
+  | EFrame _ body r => cost_ops body + cost_ops r
+  end.
+Definition blen (ops : eops) : Z := match spec_bytes ops with inr b => len b | inl _ => 0 end.
+(* [follow] = number of bytes in the buffer after this script's bytes *)
+Fixpoint ops_ok (ops : eops) (follow : Z) : Prop :=
+  match ops with
+  | ENil => True
+  | ECons p r => prim_ok p /\ ctx_ok p (blen r + follow) /\ ops_ok r follow
+  | EFrame _ body r => blen body < MAXLEN /\ ops_ok body (blen r + follow) /\ ops_ok r follow
+  end.
+
+Definition field_of (k : pushkind) (start bodylen : Z) : dfield :=
+  match k with KLen => DLen start bodylen | KVarLen _ => DVarLen start bodylen | KCrc p => DCrc p start end.
+
+Lemma push_dec_rt k bb d tail :
+  at_ d (frame_field k bb ++ tail) -> len bb <= len tail -> len bb < MAXLEN -> len (raw d) < MAXLEN ->
+  exists d1, push_dec k d = Ok tt d1 /\ raw d1 = raw d /\ off d1 = off d + len (frame_field k bb) /\
+             mem d1 = mem d /\ stack d1 = field_of k (off d) (len bb) :: stack d.
+Proof.
+  intros Hat Hfit Hl Hraw. unfold MAXLEN in *. pose proof (len_nonneg bb). pose proof (at_off _ _ Hat).
+  destruct k as [|l|p]; cbn [push_dec frame_field field_of] in *.
+  - pose proof (get_int32_rt (len bb) d tail ltac:(unfold in_i32; lia) Hat) as G. step G.
+    destruct M as (A1 & A2 & A3 & A4).
+    assert (Hat1 : at_ d1 tail).
+    { eapply at_moved; [exact Hat|]. rewrite len_be. repeat split; eassumption. }
+    pose proof (at_remaining _ _ Hat1) as Hrem.
+    assert (Hr31 : remaining d1 < 2147483648) by (unfold remaining; rewrite A1; pose proof (at_off _ _ Hat1); lia).
+    rewrite i32_id by (unfold in_i32; lia).
+    replace (remaining d1 <? len bb) with false by (symmetry; apply Z.ltb_ge; lia).
+    eexists; split; [reflexivity|]. cbn [raw off mem stack set_stack adv set_off]. rewrite len_be. repeat split; try assumption; [lia | now rewrite A4].
+  - pose proof (get_varint_rt (len bb) d tail ltac:(unfold in_i64, two63; lia) Hat) as G. step G.
+    destruct M as (A1 & A2 & A3 & A4).
+    eexists; split; [reflexivity|]. cbn [raw off mem stack set_stack adv set_off]. repeat split; try assumption; [lia | now rewrite A4].
+  - pose proof (at_remaining _ _ Hat) as Hrem. rewrite len_app, len_be in Hrem. pose proof (len_nonneg tail).
+    change (Z.of_nat 4) with 4 in Hrem.
+    replace (remaining d <? 4) with false by (symmetry; apply Z.ltb_ge; lia).
+    eexists; split; [reflexivity|]. cbn [raw off mem stack set_stack adv set_off]. rewrite len_be. repeat split; reflexivity.
+Qed.
+
+Lemma firstn_app_exact {A} (a b : list A) : firstn (length a) (a ++ b) = a.
+Proof. rewrite firstn_app, firstn_all, Nat.sub_diag. cbn. apply app_nil_r. Qed.
+
+Lemma pop_dec_rt k bb d d2 tail s :
+  at_ d (frame_field k bb ++ bb ++ tail) -> len bb < MAXLEN ->
+  raw d2 = raw d -> off d2 = off d + len (frame_field k bb) + len bb ->
+  stack d2 = field_of k (off d) (len bb) :: s ->
+  pop_dec d2 = Ok tt (set_stack d2 s).
+Proof.
+  intros Hat Hl Hraw Hoff Hst. unfold pop_dec. rewrite Hst. unfold MAXLEN in *. pose proof (len_nonneg bb).
+  destruct k as [|l|p]; cbn [field_of check_field frame_field] in *; cbn [off set_stack].
+  - rewrite Hoff, len_be. change (Z.of_nat 4) with 4.
+    replace (off d + 4 + len bb - off d - 4) with (len bb) by lia.
+    rewrite i32_id by (unfold in_i32; lia). now rewrite Z.eqb_refl.
+  - rewrite Hoff. replace (off d + len (put_varint (len bb)) + len bb - off d - len (put_varint (len bb))) with (len bb) by lia.
+    now rewrite Z.eqb_refl.
+  - change (raw (set_stack d2 s)) with (raw d2). rewrite Hraw, Hoff, len_be. change (Z.of_nat 4) with 4.
+    destruct Hat as (pre & suf & Hr & Ho). rewrite Hr, Ho.
+    assert (S1 : slice (pre ++ (be 4 (crc32 p bb) ++ bb ++ tail) ++ suf) (len pre + 4) (len pre + 4 + len bb) = Some bb).
+    { replace (pre ++ (be 4 (crc32 p bb) ++ bb ++ tail) ++ suf) with ((pre ++ be 4 (crc32 p bb)) ++ bb ++ (tail ++ suf))
+        by (now rewrite <- !app_assoc).
+      replace (len pre + 4) with (len (pre ++ be 4 (crc32 p bb))) by (rewrite len_app, len_be; reflexivity).
+      apply slice_mid. }
+    rewrite S1, slice_tail.
+    rewrite <- !app_assoc. rewrite !len_app, len_be. pose proof (len_nonneg tail). pose proof (len_nonneg suf).
+    change (Z.of_nat 4) with 4.
+    replace (4 + (len bb + (len tail + len suf)) <? 4) with false by (symmetry; apply Z.ltb_ge; lia).
+    change 4%nat with (length (be 4 (crc32 p bb))) at 1.
+    rewrite firstn_app_exact, u32_be by apply crc32_range. now rewrite Z.eqb_refl.
+Qed.
+
+Lemma at_shift d d1 a b : at_ d (a ++ b) -> raw d1 = raw d -> off d1 = off d + len a -> at_ d1 b.
+Proof.
+  intros (pre & suf & Hr & Ho) A1 A2. exists (pre ++ a), suf. split.
+  - rewrite A1, Hr, <- !app_assoc. reflexivity.
+  - rewrite A2, Ho, len_app. reflexivity.
+Qed.
+Lemma remaining_shift d d1 n : raw d1 = raw d -> off d1 = off d + n -> remaining d1 = remaining d - n.
+Proof. unfold remaining. intros -> ->. lia. Qed.
+
+Lemma blen_eq ops bs : spec_bytes ops = inr bs -> blen ops = len bs.
+Proof. unfold blen. now intros ->. Qed.
+
+Theorem script_roundtrip ops : forall bs d rest,
+  spec_bytes ops = inr bs -> at_ d (bs ++ rest) -> ops_ok ops (remaining d - len bs) -> len (raw d) < MAXLEN ->
+  exists d', runs (dops_of ops) d (expected_vals ops) d' /\ moved d d' (len bs) (cost_ops ops).
+Proof.
+  induction ops as [|p r IHr|k body IHb r IHr]; intros bs d rest Hs Hat Hok Hraw.
+  - cbn [spec_bytes] in Hs. apply inr_inj in Hs. subst bs. exists d. split; [constructor | apply moved_refl].
+  - cbn [spec_bytes] in Hs. destruct (real_prim p) as [e|bp] eqn:Ep; [discriminate|].
+    destruct (spec_bytes r) as [e|br] eqn:Er; [discriminate|]. apply inr_inj in Hs. subst bs.
+    cbn [ops_ok] in Hok. destruct Hok as (Hp & Hc & Hr). rewrite (blen_eq r br Er), len_app in *.
+    rewrite <- app_assoc in Hat.
+    assert (Hc' : ctx_ok p (remaining d - len bp)).
+    { replace (remaining d - len bp) with (len br + (remaining d - (len bp + len br))) by lia. exact Hc. }
+    destruct (prim_roundtrip p bp d (br ++ rest) Hp Ep Hat Hc') as (d1 & E1 & M1).
+    pose proof M1 as (A1 & A2 & A3 & A4).
+    assert (Hat1 : at_ d1 (br ++ rest)) by (eapply at_moved; eassumption).
+    assert (Hok1 : ops_ok r (remaining d1 - len br)).
+    { rewrite (moved_remaining _ _ _ _ M1). replace (remaining d - len bp - len br) with (remaining d - (len bp + len br)) by lia. exact Hr. }
+    destruct (IHr br d1 rest eq_refl Hat1 Hok1 ltac:(now rewrite A1)) as (d2 & R2 & M2).
+    exists d2. split.
+    + cbn [dops_of expected_vals]. econstructor; eassumption.
+    + cbn [cost_ops]. eapply moved_trans; eassumption.
+  - rewrite spec_bytes_frame in Hs. destruct (spec_bytes body) as [e|bb] eqn:Eb; [discriminate|].
+    destruct (spec_bytes r) as [e|br] eqn:Er; [discriminate|]. apply inr_inj in Hs. subst bs.
+    cbn [ops_ok] in Hok. destruct Hok as (Hlb & Hob & Hor).
+    rewrite (blen_eq body bb Eb) in Hlb. rewrite (blen_eq r br Er) in Hob. rewrite !len_app in *.
+    set (ff := frame_field k bb) in *.
+    pose proof (len_nonneg bb). pose proof (len_nonneg br). pose proof (len_nonneg rest). pose proof (len_nonneg ff).
+    assert (Hat0 : at_ d (ff ++ bb ++ br ++ rest)) by (now rewrite <- !app_assoc in Hat).
+    destruct (push_dec_rt k bb d (bb ++ br ++ rest) Hat0 ltac:(rewrite !len_app; lia) Hlb Hraw)
+      as (d1 & E1 & A1 & A2 & A3 & A4). fold ff in A2.
+    assert (Hat1 : at_ d1 (bb ++ br ++ rest)) by (eapply at_shift; eassumption).
+    assert (Hok1 : ops_ok body (remaining d1 - len bb)).
+    { rewrite (remaining_shift d d1 (len ff) A1 A2).
+      replace (remaining d - len ff - len bb) with (len br + (remaining d - (len ff + (len bb + len br)))) by lia. exact Hob. }
+    destruct (IHb bb d1 (br ++ rest) eq_refl Hat1 Hok1 ltac:(now rewrite A1)) as (d2 & R2 & M2).
+    pose proof M2 as (B1 & B2 & B3 & B4).
+    assert (Epop : pop_dec d2 = Ok tt (set_stack d2 (stack d))).
+    { apply (pop_dec_rt k bb d d2 (br ++ rest)); try assumption.
+      - congruence.
+      - fold ff. lia.
+      - congruence. }
+    set (d3 := set_stack d2 (stack d)) in *.
+    assert (C1 : raw d3 = raw d) by (cbn; congruence).
+    assert (C2 : off d3 = off d + len (ff ++ bb)) by (cbn; rewrite len_app; lia).
+    assert (Hat3 : at_ d3 (br ++ rest)).
+    { apply (at_shift d d3 (ff ++ bb)); [now rewrite <- !app_assoc | assumption | assumption]. }
+    assert (Hok3 : ops_ok r (remaining d3 - len br)).
+    { rewrite (remaining_shift d d3 _ C1 C2), len_app.
+      replace (remaining d - (len ff + len bb) - len br) with (remaining d - (len ff + (len bb + len br))) by lia. exact Hor. }
+    destruct (IHr br d3 rest eq_refl Hat3 Hok3 ltac:(now rewrite C1)) as (d4 & R4 & M4).
+    pose proof M4 as (D1 & D2 & D3 & D4).
+    exists d4. split.
+    + cbn [dops_of expected_vals]. econstructor.
+      * cbn [run_dop]. rewrite E1. reflexivity.
+      * eapply runs_app; [exact R2|]. econstructor; [|exact R4]. cbn [run_dop]. rewrite Epop. reflexivity.
+    + cbn [cost_ops]. unfold moved. repeat split.
+      * congruence.
+      * rewrite D2, C2, len_app. lia.
+      * rewrite D3. cbn [d3 mem set_stack]. lia.
+      * rewrite D4. reflexivity.
+Qed.
+
+(* the closed form used by the correspondence: run_dops on the encoding gives exactly the expected values *)
+Corollary script_roundtrip_run ops bs pre suf :
+  spec_bytes ops = inr bs -> ops_ok ops (len suf) -> len (pre ++ bs ++ suf) < MAXLEN ->
+  run_dops (dops_of ops) (mkDec (pre ++ bs ++ suf) (len pre) 0 []) = (expected_vals ops, (0, len pre + len bs)).
+Proof.
+  intros Hs Hok Hraw. set (d := mkDec (pre ++ bs ++ suf) (len pre) 0 []).
+  assert (Hat : at_ d (bs ++ [])) by (exists pre, suf; rewrite app_nil_r; split; reflexivity).
+  assert (Hrem : remaining d - len bs = len suf) by (unfold remaining; cbn; rewrite !len_app; lia).
+  destruct (script_roundtrip ops bs d [] Hs Hat ltac:(now rewrite Hrem) Hraw) as (d' & R & M).
+  rewrite (runs_run_dops _ _ _ _ R). destruct M as (_ & M2 & _). now rewrite M2.
 Qed.
